@@ -54,16 +54,22 @@ def many_ops(rng, prefix, plats, n_random):
         for n in range(1, 41, 3):
             ctr = min(counters(rng), M64 - n)
             ops.append(f"{prefix} xofmany {p} {rhex(rng, 32)} {rhex(rng, 64)} {rng.randrange(0, 65)} {ctr} {rng.randrange(256)} {n}")
-    # exhaustive carry grid for xof_many: n blocks whose counters cross 2^32 (and 2^33) at every position
+    # exhaustive carry grid for xof_many: n blocks whose counters cross 2^32 (carry into the high word) or 2^31 (sign bit of the
+    # low word, which the compare-based carry of the SIMD kernels must not mistake for a carry) at every position
     for p in plats:
-        if "avx512" not in p:
-            continue
+        nmax = 40 if "avx512" in p else 20
         cv, blk = rhex(rng, 32), rhex(rng, 64)
-        for n in range(1, 41):
-            for k in range(0, n + 1):
-                ops.append(f"{prefix} xofmany {p} {cv} {blk} 64 {(1 << 32) - k} {rng.choice([0, 8, 11])} {n}")
+        for base in [1 << 32, 1 << 31]:
+            for n in range(1, nmax + 1):
+                for k in range(0, n + 1):
+                    ops.append(f"{prefix} xofmany {p} {cv} {blk} 64 {base - k} {rng.choice([0, 8, 11])} {n}")
         for n in range(1, 20):
             ops.append(f"{prefix} xofmany {p} {cv} {blk} {rng.randrange(65)} {M64 - n} 3 {n}")
+        # the same for hash_many with incrementing counters: n inputs, the boundary between input k-1 and k
+        for base in [1 << 32, 1 << 31]:
+            for n in range(1, 19):
+                for k in range(0, n + 1, 1 if n <= 9 else 3):
+                    ops.append(f"{prefix} hmany {p} {n} 1 {rng.randrange(1 << 30)} {rhex(rng, 32)} {base - k} 1 0 0 0 0 0")
     for _ in range(n_random):
         p = rng.choice(plats)
         n = rng.randrange(0, 40)
